@@ -207,6 +207,37 @@ def c03(tier, seed):
         g.lines.append('!views c0'); g.out.append('ok')
         g.do('obs c0')
         yield dict(lines=g.lines, pool=pool, tag='C03 history seed=%d' % (seed * 7919 + j))
+    # Layer R: histories of the three primitive representation calls (raw forceDeleteSimplex included), compared
+    # with the matrix-level model `MatRep.Rep` (indices, boundary operators, basis matrices, all queries)
+    for j in range(500 if tier == 'quick' else 5000):
+        pool = POOL_NAMES[j % len(POOL_NAMES)]
+        L = Live(pool, 'C03 representation-level history seed=%d/%d' % (seed, j))
+        L.do('rnew r')
+        fresh = 0
+        for _ in range(rng.randrange(4, 30 if tier == 'quick' else 60)):
+            rep = L.ex.reps['r'].representation()
+            mo = rep.maxOrder()
+            by = [[L.ex.T(x) for x in rep.simplicesOfOrder(k)] for k in range(mo + 1)]
+            names = [t for l in by for t in l]
+            k = rng.choice(['pt', 'pt', 'hi', 'hi', 'hi', 'bad', 'rel', 'del', 'del'])
+            if k == 'pt' or not names:
+                fresh += 1; L.do('radd r u%d []' % fresh)
+            elif k == 'hi':
+                o = rng.randrange(0, mo + 1)
+                if len(by[o]) >= o + 2:
+                    fresh += 1; L.do('radd r u%d %s' % (fresh, Lst(rng.sample(by[o], o + 2))))
+            elif k == 'bad':
+                fresh += 1
+                fs = rng.sample(names, min(len(names), rng.randrange(1, 4))) + rng.choice([[], ['u999'], [names[0]]])
+                L.do('radd r %s %s' % (rng.choice(['u%d' % fresh, rng.choice(names)]), Lst(fs)))
+            elif k == 'rel':
+                fresh += 1; L.do('rrel r %s %s' % (rng.choice(names + ['u998']), rng.choice(['u%d' % fresh, rng.choice(names)])))
+            else:
+                # mostly deletions that keep the structure closed (no cofaces), sometimes a raw one
+                free = [t for t in names if not rep.cofaces(L.ex.name(t))]
+                L.do('rdel r %s' % (rng.choice(free) if free and rng.random() < 0.8 else rng.choice(names + ['u997'])))
+            L.do('robs r')
+        yield L.case()
     for fam in ([frozenset()] + all_complexes(2)):
         yield dict(lines=build_lines(fam, 'c0') + ['!views c0', 'q c0 bop 0', 'q c0 bop 1', 'q c0 bop 2', 'q c0 betti [0]'], pool='int', tag='C03 tiny')
 
